@@ -27,4 +27,4 @@ def _key(r):
 
 
 def main(tier, seed):
-    return e2.main(ID, HARNESS, tier, seed, META, t_quick=30, t_thorough=150, key_fn=_key)
+    return e2.main(ID, HARNESS, tier, seed, META, t_quick=30, t_thorough=90, key_fn=_key)
